@@ -2,7 +2,7 @@
 //@ assume: T6 rewrites: `vec![x; n]` => helper vec_filled (n copies of x); every `Err(Error::Verification("<message>".to_owned()))` => `Err(Error::<Kind>)`, one abstract kind per message, so that the contract can say WHY the input checks fail; integer literal types made explicit; `for n in 0..size` loops get spliced invariants
 //@ assume: termination of the two cycle-following loops is NOT proved: exec_allows_no_decreases_clause
 //@ assume: assumed: u64::leading_zeros(x) >= 1 for x < 2^63 (std intrinsic; only used to show `1 + mask` cannot overflow)
-//@ assume: decided here, for ANY proof size and any siphash outputs (no bound): CuckatooContext::verify_impl (Cuckatoo, the primary proof of work; bipartite graph, U endpoints at even and V endpoints at odd positions, two endpoints meet at a node when they are on the same side and agree on all but the lowest bit) never indexes out of range, and returns Ok ONLY IF the 2*size endpoints form one simple cycle through all `size` edges: starting from endpoint 0 and repeatedly moving to the UNIQUE other endpoint at the same node and then to the other end of that edge, the walk returns to endpoint 0 for the first time after exactly `size` steps, every node met has exactly two endpoints, all visited endpoints are distinct; plus nonces strictly ascending and within the edge mask. The three input checks are exact: the wrong-length / edge-too-big / not-ascending errors are returned only for that reason. (The rest of the converse -- every simple cycle is accepted -- is not decided.)
+//@ assume: decided here, for ANY proof size and any siphash outputs (no bound): CuckatooContext::verify_impl (Cuckatoo, the primary proof of work; bipartite graph, U endpoints at even and V endpoints at odd positions, two endpoints meet at a node when they are on the same side and agree on all but the lowest bit) never indexes out of range, and returns Ok ONLY IF the 2*size endpoints form one simple cycle through all `size` edges: starting from endpoint 0 and repeatedly moving to the UNIQUE other endpoint at the same node and then to the other end of that edge, the walk returns to endpoint 0 for the first time after exactly `size` steps, every node met has exactly two endpoints, all visited endpoints are distinct; plus nonces strictly ascending and within the edge mask. Every error except the xor pre-check carries its reason: wrong-length / edge-too-big / not-ascending are returned only for that reason; 'branch' only if three distinct endpoints share a node; 'dead end' only if some endpoint has no partner (or only an identical one); 'too short' only if the walk from endpoint 0 closes after m != size steps -- each of which is incompatible with the endpoints forming one simple cycle through all edges. (Not decided: that the xor pre-check 'endpoints don't match up' never fires on a simple cycle -- the pairing argument over xor -- so completeness is decided up to that check.)
 //@ assume: 64-bit target
 //@ assumed_items: 5
 //@ fns: CuckatooContext::verify_impl
@@ -180,10 +180,16 @@ proof fn lemma_inner_step(uvs: Seq<u64>, mask: u64, i: int, k: int, j: int, wrap
     ensures k2 == i ==> uniq(uvs, i, j),
             k2 != i && key(uvs, k2) != key(uvs, i) ==> minv(uvs, mask, i, k2, j, wrapped || k2 >= k),
             k2 != i && key(uvs, k2) == key(uvs, i) && j == i ==> minv(uvs, mask, i, k2, k2, wrapped || k2 >= k),
+            k2 != i ==> !exam(uvs, mask, i, k, wrapped, k2),
 {
     let b = bk(uvs, mask, i);
     let w2 = wrapped || k2 >= k;
     assert(bk(uvs, mask, k) == b);
+    if k2 != i {
+        // k2 is the cyclic predecessor of k: it has not been compared yet
+        if k2 < k { if wrapped && k2 < i { assert(bk(uvs, mask, i) != b); } }
+        else { if wrapped { assert(bk(uvs, mask, i) != b); } if k2 < i { assert(bk(uvs, mask, i) != b); } }
+    }
     // the examined set grows by exactly k2 (when k2 != i); when k2 == i everything but i has been examined
     if k2 == i {
         assert forall|e: int| 0 <= e < uvs.len() && e != i && key(uvs, e) == key(uvs, i) implies exam(uvs, mask, i, k, wrapped, e) by {
@@ -277,6 +283,12 @@ pub open spec fn simple_cycle(uvs: Seq<u64>, size: int) -> bool {
         && #[trigger] uniq(uvs, path.last(), js.last()) && js.last() != path.last() && flip1(js.last()) == 0
 }
 
+/// three distinct endpoints at one node: a branch
+pub open spec fn three_at_node(uvs: Seq<u64>, a: int, b: int, c: int) -> bool {
+    0 <= a < uvs.len() && 0 <= b < uvs.len() && 0 <= c < uvs.len() && a != b && a != c && b != c && key(uvs, a) == key(uvs, b) && key(uvs, a) == key(uvs, c)
+}
+/// endpoint a has no partner (b == a), or its only partner b is the very same node rather than the partner node
+pub open spec fn dead_end(uvs: Seq<u64>, a: int, b: int) -> bool { 0 <= a < uvs.len() && uniq(uvs, a, b) && (b == a || uvs[b] == uvs[a]) }
 /// the endpoint values the verifier derives from the proof's nonces
 pub open spec fn ep(p: CuckooParams, nonces: Seq<u64>, e: int) -> u64 { sp_sipnode(p, nonces[e / 2], (e % 2) as u64) }
 pub open spec fn endpoints(p: CuckooParams, nonces: Seq<u64>) -> Seq<u64> { Seq::new((2 * nonces.len()) as nat, |e: int| ep(p, nonces, e)) }
@@ -351,11 +363,12 @@ impl CuckatooContext {
 //@+    let ghost mut js: Seq<int> = Seq::empty();
 //@+    let ghost mut jlast: int = 0;
 //@+    let ghost hcf = hc(headu@, headv@);
+//@+    proof { assert(uvs@ =~= endpoints(self.params, proof.nonces@)); }
 //@   loop 3:
 //@+    invariant_except_break
 //@+        size == proof.nonces@.len(), filled(uvs@, self.params, proof.nonces@, 2 * size), uvs@.len() == 2 * size,
 //@+        nn == 2 * size, 1 <= size <= 0x10_0000, mixed_ok(uvs@, mask, hcf, prev@, nn, nn),
-//@+        walk_ok(uvs@, path, js), path.len() == n + 1, path.last() == i,
+//@+        walk_ok(uvs@, path, js), path.len() == n + 1, path.last() == i, uvs@ == endpoints(self.params, proof.nonces@),
 //@+    ensures
 //@+        walk_ok(uvs@, path, js), path.len() == n, uniq(uvs@, path.last(), jlast), jlast != path.last(), flip1(jlast) == 0,
 //@   after `j = i;`:
@@ -365,20 +378,32 @@ impl CuckatooContext {
 //@+    invariant_except_break
 //@+        size == proof.nonces@.len(), uvs@.len() == 2 * size,
 //@+        nn == 2 * size, 1 <= size <= 0x10_0000, mixed_ok(uvs@, mask, hcf, prev@, nn, nn), i < nn,
-//@+        minv(uvs@, mask, i as int, k as int, j as int, wrapped),
+//@+        minv(uvs@, mask, i as int, k as int, j as int, wrapped), uvs@ == endpoints(self.params, proof.nonces@),
 //@+    ensures
 //@+        uniq(uvs@, i as int, j as int), j < nn,
 //@   before `k = prev[k];`:
 //@+    let ghost k0 = k;
 //@   after `k = prev[k];`:
 //@+    proof { lemma_inner_step(uvs@, mask, i as int, k0 as int, j as int, wrapped, k as int);
-//@+            if k != i { wrapped = wrapped || k >= k0; lemma_match(uvs@, k as int, i as int); } }
+//@+            if k != i { if j != i { assert(exam(uvs@, mask, i as int, k0 as int, wrapped, j as int)); assert(j != k); assert(key(uvs@, j as int) == key(uvs@, i as int)); }
+//@+                wrapped = wrapped || k >= k0; lemma_match(uvs@, k as int, i as int); } }
+//@   before `return Err(Error::Branch);`:
+//@+    proof { assert(three_at_node(uvs@, i as int, j as int, k as int)); }
+//@   before `return Err(Error::DeadEnd);`:
+//@+    proof { assert(dead_end(uvs@, i as int, j as int)); }
 //@   before `i = j ^ 1;`:
 //@+    proof { lemma_xor1(j); jlast = j as int;
 //@+            if flip1(j as int) != 0 { lemma_walk_extend(uvs@, path, js, j as int); path = path.push(flip1(j as int)); js = js.push(j as int); } }
 //@   before `if n == size {`:
 //@+    proof {
 //@+        assert(uvs@ =~= endpoints(self.params, proof.nonces@));
+//@+        if n != size {
+//@+            let jsf = js.push(jlast);
+//@+            assert(jsf.drop_last() =~= js);
+//@+            assert(walk_ok(uvs@, path, jsf.drop_last()) && path.len() == n && jsf.len() == n
+//@+                && uniq(uvs@, path.last(), jsf.last()) && jsf.last() != path.last() && flip1(jsf.last()) == 0);
+//@+            assert(simple_cycle(uvs@, n as int));
+//@+        }
 //@+        if n == size {
 //@+            let jsf = js.push(jlast);
 //@+            assert(jsf.drop_last() =~= js);
@@ -390,6 +415,9 @@ impl CuckatooContext {
 //@+    r matches Err(Error::WrongLen) ==> proof.nonces@.len() != sp_proofsize(),
 //@+    r matches Err(Error::TooBig) ==> exists|a: int| 0 <= a < proof.nonces@.len() && #[trigger] proof.nonces@[a] > self.params.edge_mask,
 //@+    r matches Err(Error::NotAscending) ==> exists|a: int| 1 <= a < proof.nonces@.len() && proof.nonces@[a - 1] >= #[trigger] proof.nonces@[a],
+//@+    r matches Err(Error::Branch) ==> exists|a: int, b: int, c: int| #[trigger] three_at_node(endpoints(self.params, proof.nonces@), a, b, c),
+//@+    r matches Err(Error::DeadEnd) ==> exists|a: int, b: int| #[trigger] dead_end(endpoints(self.params, proof.nonces@), a, b),
+//@+    r matches Err(Error::TooShort) ==> exists|m: int| m != sp_proofsize() && #[trigger] simple_cycle(endpoints(self.params, proof.nonces@), m),
 //@+    r.is_ok() ==> proof.nonces@.len() == sp_proofsize()
 //@+        && (forall|a: int| 0 <= a < proof.nonces@.len() ==> #[trigger] proof.nonces@[a] <= self.params.edge_mask)
 //@+        && (forall|a: int| 1 <= a < proof.nonces@.len() ==> proof.nonces@[a - 1] < #[trigger] proof.nonces@[a])
